@@ -47,6 +47,45 @@ PY_HEADER = gen_terms.PY_HEADER + ("from funsor.terms import Subs, Binary\n"
                                    "from funsor.interpreter import reinterpret\n")
 
 
+def py_footer(order, expected, real_env=None, call="r = CALL()"):
+    """Self-checking tail of a replay snippet: `CALL()` performs the substitution; a decline is allowed, a returned
+    value must have inputs among `order` and equal `expected` (table over `order` + event shape) everywhere."""
+    exp = np.asarray(expected, dtype=np.float64)
+    return (f"ORDER = {[(n, int(s_)) for n, s_ in order]!r}\n"
+            f"EXPECTED = np.array({exp.tolist()!r}, dtype=np.float64).reshape({tuple(exp.shape)!r})\n"
+            f"REAL_ENV = {dict(real_env or {})!r}\n"
+            "def _table(r, order):\n"
+            "    data = np.asarray(r.data, dtype=np.float64); names = [n for n, _ in order]; have = list(r.inputs)\n"
+            "    assert all(k in names for k in have), ('foreign input', have)\n"
+            "    nb = len(have)\n"
+            "    data = data.transpose([have.index(n) for n in names if n in have] + list(range(nb, data.ndim)))\n"
+            "    shape = [s if n in have else 1 for n, s in order]\n"
+            "    data = data.reshape(tuple(shape) + data.shape[nb:])\n"
+            "    return np.broadcast_to(data, tuple(s for _, s in order) + data.shape[len(order):])\n"
+            "try:\n"
+            "    r = CALL()\n"
+            "except (NotImplementedError, AssertionError, ValueError, TypeError, KeyError, IndexError) as e:\n"
+            "    print('declined:', type(e).__name__); r = None\n"
+            "FAILS = False\n"
+            "if r is not None:\n"
+            "    print(r.inputs); print(r)\n"
+            "    try:\n"
+            "        v = r(**{k: x for k, x in REAL_ENV.items() if k in r.inputs}) if REAL_ENV else r\n"
+            "        v = v if isinstance(v, (Tensor, Number)) else reinterpret(v)\n"
+            "        got = _table(v, ORDER) if isinstance(v, Tensor) else np.broadcast_to(np.asarray(v.data, dtype=np.float64), EXPECTED.shape)\n"
+            "        FAILS = got.shape != EXPECTED.shape or not np.array_equal(got, EXPECTED, equal_nan=True)\n"
+            "    except AssertionError as e:\n"
+            "        print(e); FAILS = True\n"
+            "print('FAILS =', FAILS)\n")
+
+
+def cells_to_array(cells, ins):
+    """[(shape, [values])] over the points of ins -> ndarray sizes + shape."""
+    shape = list(cells[0][0]) if cells else []
+    flat = [float(x) for _, vals in cells for x in vals]
+    return np.array(flat, dtype=np.float64).reshape(tuple(s_ for _, s_ in ins) + tuple(shape))
+
+
 # ------------------------------------------------------------------------------------------------
 # recipes: gen_terms recipes + two extra tags handled here
 #     ("rvar", name)            a real-valued free variable
@@ -224,7 +263,7 @@ def s1_oracle(data, own_sizes, ev_shape, sigma, ins):
     return out
 
 
-def s1_python(own_sizes, ev_shape, data, sigma, lazy_pair=None):
+def s1_python(own_sizes, ev_shape, data, sigma, lazy_pair=None, ins=(), oracle=None):
     dt = "np.float64"
     sizes = dict(own_sizes)
     sig = ", ".join(f"{k!r}: {sval_python(v, sizes[k])}" for k, v in sigma)
@@ -238,8 +277,7 @@ def s1_python(own_sizes, ev_shape, data, sigma, lazy_pair=None):
                  f"u = Tensor(np.array({d2.tolist()}, dtype={dt}), OrderedDict([" +
                  ", ".join(f"({n!r}, Bint[{s}])" for n, s in ins2) + "]))\n" +
                  f"with {how}:\n    t = s + u\n")
-    return (PY_HEADER + build + f"r = t(**{{{sig}}})\nprint(r.inputs)\nprint(getattr(r, 'data', r))\n"
-            "FAILS = True  # compare with `expected` (table over the sorted expected inputs) in this replay file\n")
+    return (PY_HEADER + build + f"CALL = lambda: t(**{{{sig}}})\n" + py_footer(ins, oracle))
 
 
 def table_of(r, ins, ev_ndim=None):
@@ -341,7 +379,7 @@ def run_s1(ctx, use_lean=True, volume=1.0):
                 ctx.count(f"S1:{vname}:declined:{type(e).__name__}")
                 ctx.case()
                 continue
-            py = s1_python(own_sizes, ev_shape, the_data, sigma, lazy_pair)
+            py = s1_python(own_sizes, ev_shape, the_data, sigma, lazy_pair, ins, the_oracle)
             wit = {"stream": "S1", "variant": vname, "inputs": own_sizes, "event_shape": list(ev_shape),
                    "data": the_data.tolist(), "sigma": [(k, describe_sval(v)) for k, v in sigma]}
             # inputs clause (evaluated result: subset of the expected inputs, same sizes)
@@ -548,13 +586,10 @@ def gen_real_value(rng, c, pool_sizes):
 
 REAL_POINTS = {"w": [0.5, -1.0], "x": [2.0, -0.5], "y": [1.5, 0.0]}
 
-KF_CAPTURE = "KF-cat-onepart-capture"
-
-
 def cat_capture_region(f_syn, sig_syn, loose=False):
-    """Region of KF-cat-onepart-capture: some Cat node of f has an input k (other than its own name) that sigma
-    substitutes by a value mentioning the Cat's own name.  The rebuilt Cat is then ill-formed (`name in part.inputs`);
-    Cat.__init__ asserts that, the eager rules that fire before the constructor do not."""
+    """Some Cat node of f has an input k (other than its own name) that sigma substitutes by a value mentioning the
+    Cat's own name.  The rebuilt Cat is then ill-formed (`name in part.inputs`): Cat.__init__ asserts that, and so do
+    the eager Cat rules since e7d35f5 (before, they merged the two axes: found by this harness)."""
     seen = set()
     stack = [f_syn]
     while stack:
@@ -697,10 +732,10 @@ def run_s2(ctx, n, use_lean=True):
         interp = rng.choice(["eager", "eager", "lazy", "reflect"])
         mode = {"eager": "call", "lazy": rng.choice(["call", "call-under-lazy"]), "reflect": "Subs+reinterpret"}[interp]
         if cat_capture_region(f_syn, sig_syn):
-            # dedicated stream of the open finding: never part of the clean stream
-            ctx.count("S2:cat-capture-region")
-            s2_capture_case(ctx, recipe, sigma, interp, mode, f_wire, sig_wire, exp, ins, renvs)
-            continue
+            # a value substituted below a lazily built Cat mentions the Cat's own name: funsor must decline
+            # (Cat.__init__'s name-clash assertion, also made by the eager Cat rules since e7d35f5) or be right;
+            # part of the clean stream, counted to measure that the generator reaches it
+            ctx.count("S2:cat-own-name-reintroduced")
         py = s2_python(recipe, sigma, foreign, interp, mode)
         wit = {"stream": "S2", "f": describe2(recipe), "sigma": [(k, describe2(v)) for k, v in sigma],
                "foreign": [(k, describe2(v)) for k, v in foreign], "built_under": interp, "mode": mode}
@@ -799,33 +834,6 @@ def run_s2(ctx, n, use_lean=True):
                 ctx.case(nontrivial_key=("chain", repr(wit)))
 
 
-def s2_capture_case(ctx, recipe, sigma, interp, mode, f_wire, sig_wire, exp, ins, renvs):
-    """A case inside the region of KF-cat-onepart-capture: a decline is fine; a value is compared and a wrong one is
-    recorded for the dedicated stream (reported once at the end of correspond)."""
-    status, r, _ = s2_run_impl(recipe, sigma, [], interp, mode)
-    bucket = ctx.extra.setdefault("_capture", {"cases": 0, "wrong": []})
-    bucket["cases"] += 1
-    if status != "value":
-        return
-    ans = ctx.driver.ask1(f"C04 denote {sx(['subs', f_wire, sig_wire])} {sx(ser.ins_wire(ins))} {sx(ser.env_wire(renvs[0]))}")
-    model = ser.parse_table(ans)
-    if model is None or any(c is None for c in model):
-        return
-    wrong = any(k not in exp or exp[k] != d for k, d in r.inputs.items())
-    if not wrong:
-        try:
-            st, cells = value_over(r, ins, renvs[0])
-            wrong = st == "value" and cells is not None and not ser.tables_equal(cells, model)[0]
-        except (KeyError, ValueError):
-            wrong = True
-        except DECLINE:
-            wrong = False
-    if wrong:
-        bucket["wrong"].append({"f": describe2(recipe), "sigma": [(k, describe2(v)) for k, v in sigma],
-                                "built_under": interp, "mode": mode,
-                                "python": s2_python(recipe, sigma, [], interp, mode)})
-
-
 def _tables_same(a, b):
     if a is None or b is None or len(a) != len(b):
         return False
@@ -867,14 +875,13 @@ def s2_python(recipe, sigma, foreign, interp, mode):
     sig = ", ".join(f"{k!r}: {python_of2(v)}" for k, v in sigma + foreign)
     src = PY_HEADER + f"with {interp}:\n    f = {python_of2(recipe)}\n"
     if mode == "Subs+reinterpret":
-        src += (f"with reflect:\n    s = Subs(f, tuple({{{sig}}}.items()))\nprint(s.inputs)\n"
-                "with eager:\n    r = reinterpret(s)\n")
+        src += (f"def CALL():\n    with reflect:\n        s = Subs(f, tuple({{{sig}}}.items()))\n    print(s.inputs)\n"
+                "    with eager:\n        return reinterpret(s)\n")
     elif mode == "call-under-lazy":
-        src += f"with lazy:\n    r = f(**{{{sig}}})\n"
+        src += f"def CALL():\n    with lazy:\n        return f(**{{{sig}}})\n"
     else:
-        src += f"with {interp if interp != 'reflect' else 'eager'}:\n    sigma = {{{sig}}}\nr = f(**sigma)\n"
-    src += ("print(r.inputs)\nprint(r)\n"
-            "FAILS = True  # compare with `expected` in this replay file (table over the sorted expected inputs)\n")
+        src += (f"def CALL():\n    with {interp if interp != 'reflect' else 'eager'}:\n        sigma = {{{sig}}}\n"
+                "    return f(**sigma)\n")
     return src
 
 
@@ -954,8 +961,7 @@ def s2_chain(ctx, rng, recipe, sigma, interp, f_wire, sig_wire, exp, pool_sizes,
     except (ser.Unsupported,) + DECLINE:
         return
     if cat_capture_region(f_syn, b_syn, loose=True):
-        ctx.count("S2:chain:cat-capture-region-skipped")
-        return
+        ctx.count("S2:chain:cat-own-name-reintroduced")
     exp2 = OrderedDict((k, d) for k, d in exp.items() if k not in dict(b))
     for k, v in b_syn:
         for n_, d in v.inputs.items():
@@ -1222,7 +1228,6 @@ def run_rewritten(ctx):
     rng = ctx.rng
     x = Variable("x", Real)
     n_ok = 0
-    known_seen = {"cases": 0, "bad": []}
     for size, nparts, cls in itertools.product([1, 2, 3], [1, 2], ["cat", "cat-pn", "stack"]):
         for own_val, other_val in itertools.product(["num", "var-fresh", "var-other", "slice", "tensor", "none"],
                                                     ["none", "num", "var-own", "var-fresh"]):
@@ -1314,13 +1319,8 @@ def run_rewritten(ctx):
             if tab is None:
                 ctx.count("S4:lazy-result")
                 continue
-            # region of KF-cat-onepart-capture: a one-part Cat whose own name is re-introduced below it by a value
-            capture_region = cls != "stack" and nparts == 1 and other_val == "var-own"
-            if capture_region:
-                known_seen["cases"] += 1
-                if not np.array_equal(tab, oracle):
-                    known_seen["bad"].append(wit)
-                continue
+            if other_val == "var-own":
+                ctx.count("S4:own-name-reintroduced:returned-a-value")
             if not np.array_equal(tab, oracle):
                 ctx.fail("input", "C04.S4.rewritten-node.value", witness=wit, expected={"inputs": ins, "table": oracle.tolist()},
                          got=tab.tolist(), python=py)
@@ -1328,69 +1328,6 @@ def run_rewritten(ctx):
             n_ok += 1
             ctx.count(f"S4:{cls}:parts={nparts}:ok")
             ctx.case(nontrivial_key=("S4", cls, size, nparts, own_val, other_val))
-    bucket = ctx.extra.setdefault("_capture", {"cases": 0, "wrong": []})
-    bucket["cases"] += known_seen["cases"]
-    bucket["wrong"] += [{"python": KF_CAPTURE_PY, **w} for w in known_seen["bad"]]
-
-
-def report_capture(ctx):
-    """Dedicated stream of KF-cat-onepart-capture (S4 one-part Cats + the S2 cases inside the region)."""
-    bucket = ctx.extra.pop("_capture", {"cases": 0, "wrong": []})
-    # two fixed probes so that the dedicated stream does not depend on the random data
-    g = Tensor(np.array([[4., 5.], [1., 3.]]), OrderedDict(i=Bint[2], k=Bint[2]))
-    with lazy:
-        c1 = Cat("i", (g + Variable("x", Real),))
-        c2 = Cat("i", (Tensor(np.array([0.]), OrderedDict(i=Bint[1])),
-                       Tensor(np.array([[5., -2.]]), OrderedDict(i=Bint[1], j=Bint[2]))))
-    for label, thunk, ok in (
-            ("one-part Cat('i', (g(i,k)+x,))(i=1, k='i')", lambda: c1(i=1, k="i")(x=0.),
-             lambda r: list(r.inputs) == ["i"] and not r.output.shape and np.asarray(r.data).tolist() == [1., 3.]),
-            ("two-part Cat('i', (a(i), b(i,j)))(j='i', i='j')", lambda: c2(j="i", i="j"),
-             lambda r: set(r.inputs) == {"i", "j"} and not r.output.shape)):
-        bucket["cases"] += 1
-        try:
-            r = thunk()
-        except DECLINE:
-            continue
-        if not ok(r):
-            bucket["wrong"].insert(0, {"probe": label, "got_inputs": {k: str(v) for k, v in r.inputs.items()},
-                                       "got_output": str(r.output), "python": KF_CAPTURE_PY})
-    bad = bucket["wrong"]
-    ctx.count("known:cat-capture:cases", bucket["cases"])
-    ctx.count("known:cat-capture:wrong", len(bad))
-    listed = ctx.known(KF_CAPTURE, reproduced=bool(bad),
-                       what="a value substituted below a lazily built Cat mentions the Cat's own name: the eager Cat rules "
-                            "(one-part shortcut, eager_cat_homogeneous) skip Cat.__init__'s `name not in part.inputs` check and "
-                            f"merge the axes ({len(bad)}/{bucket['cases']} region cases wrong)")
-    if bad and not listed:
-        w = dict(bad[0])
-        py = w.pop("python")
-        ctx.fail("input", "C04.known." + KF_CAPTURE, witness=w,
-                 expected="the simultaneous substitution, or a decline (AssertionError) as Cat.__init__ does",
-                 got="captured / malformed result", python=py)
-
-
-KF_CAPTURE_PY = PY_HEADER + """g = Tensor(np.array([[4., 5.], [1., 3.]]), OrderedDict(i=Bint[2], k=Bint[2]))
-x = Variable('x', Real)
-with lazy:
-    c = Cat('i', (ops.add(g, x),))
-FAILS = False
-try:
-    r = c(i=1, k='i')(x=0.)
-    print(r)          # expected Tensor([1., 3.], {i}) = g[1, i]; a decline (AssertionError as for two parts) is allowed
-    FAILS = not (list(r.inputs) == ['i'] and list(np.asarray(r.data)) == [1., 3.])
-except AssertionError:
-    pass
-with lazy:
-    c2 = Cat('i', (Tensor(np.array([0.]), OrderedDict(i=Bint[1])), Tensor(np.array([[5., -2.]]), OrderedDict(i=Bint[1], j=Bint[2]))))
-try:
-    r2 = c2(j='i', i='j')     # a plain swap
-    print(r2.inputs, r2.output)   # expected inputs {i, j}, output Real
-    FAILS = FAILS or set(r2.inputs) != {'i', 'j'} or bool(r2.output.shape)
-except AssertionError:
-    pass
-"""
-
 
 # ------------------------------------------------------------------------------------------------
 # entry points
@@ -1413,7 +1350,6 @@ def correspond(ctx):
     run_s3(ctx)
     run_s1(ctx)
     run_s2(ctx, 4000 if ctx.tier == "quick" else 60000)
-    report_capture(ctx)
     ctx.assumptions.append("numpy basic/advanced indexing is modelled by its index-level specification (composition of index functions)")
     ctx.assumptions.append("Gaussian/Delta/Independent/Scatter/MarkovProduct eager_subs are outside the C04 harness (Gaussian: C12; Delta: C14)")
 
